@@ -222,6 +222,19 @@ static int mode_smooth(int cases, int max_nr, int max_nt, bool extrapolated)
                 printf("SM ex=%d strat=%s threads=%d x=%s f=%s out=%s\n", (int)extrapolated, strat == 0 ? "give" : "take", threads, hexvec(x).c_str(), hexvec(f).c_str(),
                        hexvec(to_rowmajor(g, xv)).c_str());
             }
+        // the give strategy without one or both level caches (it then evaluates the profile / the geometry itself): three of four cases
+        const bool cc = c & 1, cg = (c >> 1) & 1;
+        if (!(cc && cg)) {
+            Chain ch2 = make_chain(p, 1, cc, cg, split);
+            Level& L2 = *ch2.levels[0];
+            for (int threads : {1, 4}) {
+                Vector<double> xv = from_rowmajor(g, x), fv = from_rowmajor(g, f), tmp(N);
+                for (int i = 0; i < N; i++) tmp[i] = rng.uniform(-1e3, 1e3);
+                if (!extrapolated) { L2.initializeSmoothing(*p.geo, *p.coef, p.dirbc, threads, StencilDistributionMethod::CPU_GIVE); L2.smoothing(xv, fv, tmp); }
+                else { L2.initializeExtrapolatedSmoothing(*p.geo, *p.coef, p.dirbc, threads, StencilDistributionMethod::CPU_GIVE); L2.extrapolatedSmoothing(xv, fv, tmp); }
+                printf("SM ex=%d strat=give threads=%d caches=%d%d x=%s f=%s out=%s\n", (int)extrapolated, threads, (int)cc, (int)cg, hexvec(x).c_str(), hexvec(f).c_str(), hexvec(to_rowmajor(g, xv)).c_str());
+            }
+        }
     }
     printf("end\n");
     return 0;
